@@ -146,9 +146,18 @@ class Pair:
                 if chanid != self.ch[i].remote_chanid:
                     self.problems.append(("wrong-chanid", "message addressed to channel %d" % chanid))
                 if t in (94, 95):
-                    self.hand_data[bool(i)].append((t, code, n, body))      # i is the sender of direction d=bool(i)
+                    d = bool(i)                                             # i is the sender of direction d
+                    self.hand_data[d].append((t, code, n, body))
+                    self.check_size(d, n)
                 elif t == 93:
-                    self.hand_adj[not bool(i)].append((n, body))            # i is the receiver of direction not i
+                    d = not bool(i)                                         # i is the receiver of direction d
+                    self.hand_adj[d].append((n, body))
+                    # oracle: adjusts computed so far never exceed what the application consumed (+ discarded)
+                    granted = self.adj_emitted[d] + sum(x[0] for x in self.hand_adj[d])
+                    if granted > self.consumed[d] + self.discarded[d]:
+                        self.problems.append(("grant-exceeds-consumed",
+                                              "window adjustments computed %d > consumed %d + discarded %d" % (
+                                                  granted, self.consumed[d], self.discarded[d])))
                 else:
                     self.problems.append(("unexpected-message", "type %d" % t))
             self.t[i].sent = []
@@ -260,6 +269,10 @@ class Pair:
         if self.emitted[d] > W0 + self.adj_delivered[d]:
             self.problems.append(("window-exceeded", "sent %d bytes with window %d + adjusts %d" % (
                 self.emitted[d], W0, self.adj_delivered[d])))
+
+    def check_size(self, d, n):
+        """oracle on every data message the sender builds (independent of translator and model)"""
+        P = self.cfg[d][1]
         if n < 1:
             self.problems.append(("empty-data-message", "data message with %d bytes" % n))
         if P >= 4096 and n > P:
@@ -306,6 +319,22 @@ def coq_case(cfg_ab, cfg_ba, ops):
 
 
 CASE_TYPE = "((Z * Z * Z * bool) * (Z * Z * Z * bool) * list (bool * op))"
+
+
+def safe_mismatches(ctx, run_fn, case_type, cases, imports=None, shard=150):
+    """ctx.model_mismatches that never stops the run: when the translator failed (stale / missing Gen file)
+    or coqc cannot evaluate the cases, the comparison is recorded as broken and the implementation-level
+    oracles (which do not depend on the translator or the model) keep running."""
+    pr = ctx.proof
+    if pr is not None and pr.broken and "translator" in pr.broken:
+        ctx.corr_broken.append({"what": "model comparison %s skipped: translator gen/c19.py failed (fail-closed); "
+                                        "implementation-level oracles still run" % run_fn})
+        return []
+    try:
+        return ctx.model_mismatches(run_fn, case_type, cases, imports=imports, shard=shard)
+    except Exception as e:  # noqa
+        ctx.corr_broken.append({"what": "model comparison %s could not be evaluated" % run_fn, "error": repr(e)[-600:]})
+        return []
 
 
 def pick_window(rng, stub):
@@ -406,10 +435,129 @@ def histories(ctx, n, codes, run_fn="run_history", imports=None, settle_end=Fals
             cases.append((coq_case(cfg_ab, cfg_ba, ops), out, case))
         if j == 0:
             ctx.sample({label: {"case": case, "impl_output_head": out[:60]}})
-    bad = ctx.model_mismatches(run_fn, CASE_TYPE, [(c, o) for c, o, _ in cases], imports=imports, shard=90)
+    bad = safe_mismatches(ctx, run_fn, CASE_TYPE, [(c, o) for c, o, _ in cases], imports=imports, shard=90)
     for i in bad[:3]:
         ctx.disagree("Channel history differs from the model", case=cases[i][2], impl=cases[i][1][:400])
     return cases
+
+
+def directed_oracle(ctx):
+    """Model-independent sweep of the boundary relations between request size, remaining window and peer max
+    packet (request > window > max_packet-64, request > max_packet-64 > window, ...), stdout and stderr
+    alternating until the window is exhausted, one adjust, and again; plus discarded extended data crossing the
+    credit threshold.  Only the wire-trace oracles of Pair judge the outcome."""
+    for W0 in (50000, 100, 4031, 4032, 4033, 70000, 3968):
+        for P in (4096, 1000, 4160, 8192, 32768):
+            for n in (W0 + 1, 2 * W0, 100000, P - 63, max(4096, P) - 63, max(1, W0 - 1), W0):
+                cfg = (W0, P, 32768, False)
+                pair = Pair(cfg, cfg)
+                ops = []
+
+                def do(op):
+                    ops.append((False, op))
+                    return pair.step(False, op)
+                for phase in (0, 1):
+                    for i in range(40):
+                        r = do(("OSend", None if i % 2 == 0 else 1, n))
+                        if r <= 0:
+                            break
+                        do(("OEmit", 0))
+                    while pair.wire_data[False]:
+                        do(("ODeliver",))
+                    do(("ORecv", False, 10 ** 9))
+                    do(("ORecv", True, 10 ** 9))
+                    while pair.hand_adj[False]:
+                        do(("OEmitAdj", 0))
+                    while pair.wire_adj[False]:
+                        do(("ODeliverAdj",))
+                case = {"cfg_ab": list(cfg), "cfg_ba": list(cfg), "ops": [[d, list(o)] for d, o in ops]}
+                ctx.count(("directed", W0, P, n), nontrivial=pair.emitted[False] > 0, kind="directed-boundary")
+                report_problems(ctx, pair, case)
+    # discarded extended data around the credit threshold (threshold = W // 10)
+    for W in (32768, 40000, 65536):
+        thr = W // 10
+        for k in (0, 2, 3):
+            for n in (thr - 4, thr - 3, thr, thr + 1, 4000, 1):
+                cfg = (W, 32768, W, False)
+                pair = Pair(cfg, cfg)
+                ops = []
+                for i in range(6):
+                    for op in (("OSend", k, n), ("OEmit", 0), ("ODeliver",), ("OEmitAdj", 0), ("ODeliverAdj",)):
+                        ops.append((False, op))
+                        pair.step(False, op)
+                case = {"cfg_ab": list(cfg), "cfg_ba": list(cfg), "ops": [[d, list(o)] for d, o in ops]}
+                ctx.count(("directed-discard", W, k, n), nontrivial=True, kind="directed-discard")
+                report_problems(ctx, pair, case)
+
+
+def blocked_senders(ctx, nthreads, adjust, watchdog=6.0):
+    """>= 2 threads blocked in _wait_for_send_window on an exhausted window (stdout and stderr writers), then ONE
+    window adjustment large enough for all of them: every one must wake up and send.  Deterministic: the adjust is
+    delivered only once all threads are registered as waiters of out_buffer_cv."""
+    from paramiko.channel import Channel
+    from paramiko.message import Message
+    _quiet()
+    st = Stub()
+    ch = Channel(1)
+    ch._set_transport(st)
+    ch._set_window(32768, 32768)
+    ch._set_remote_channel(2, 0, 32768)          # the peer granted no window yet
+    ch.settimeout(watchdog + 20.0)
+    results = {}
+
+    def sender(i):
+        try:
+            results[i] = (ch.send_stderr if i % 2 else ch.send)(bytes(10 + i))
+        except Exception as e:  # noqa
+            results[i] = repr(e)
+    ths = [threading.Thread(target=sender, args=(i,), daemon=True) for i in range(nthreads)]
+    for t in ths:
+        t.start()
+    deadline = time.time() + 10.0
+    waiters = getattr(ch.out_buffer_cv, "_waiters", None)
+    while time.time() < deadline:
+        if waiters is not None and len(waiters) >= nthreads:
+            break
+        time.sleep(0.005)
+    if waiters is None:
+        time.sleep(0.5)
+    blocked = len(waiters) if waiters is not None else nthreads
+    m = Message()
+    m.add_int(adjust)
+    m.rewind()
+    ch._window_adjust(m)
+    t_end = time.time() + watchdog
+    for t in ths:
+        t.join(max(0.0, t_end - time.time()))
+    alive = [i for i, t in enumerate(ths) if t.is_alive()]
+    sent = sum(parse(raw)[3] for raw in st.sent)
+    case = {"blocked": True, "threads": nthreads, "adjust": adjust}
+    probs = []
+    if blocked < nthreads:
+        probs.append(("harness-blocked-setup", "only %d of %d senders blocked before the adjust" % (blocked, nthreads)))
+    elif alive:
+        probs.append(("blocked-sender-not-woken",
+                      "%d sender threads were blocked on an exhausted window; one WINDOW_ADJUST of %d bytes (enough for "
+                      "all, they need %d) was delivered; threads %s are still blocked %.0f s later (bytes sent: %d)" % (
+                          nthreads, adjust, sum(10 + i for i in range(nthreads)), alive, watchdog, sent)))
+    # let stragglers go so that no thread outlives the check
+    for _ in range(nthreads):
+        with ch.lock:
+            ch.out_buffer_cv.notify_all()
+    return probs, case
+
+
+def blocked_runs(ctx):
+    for nthreads, adjust in ((2, 1000), (3, 5000), (4, 100000)):
+        probs, case = blocked_senders(ctx, nthreads, adjust)
+        if probs and probs[0][0] == "harness-blocked-setup":
+            probs, case = blocked_senders(ctx, nthreads, adjust)
+        ctx.count(("blocked", nthreads, adjust), kind="blocked-senders")
+        for key, what in probs[:1]:
+            if key == "harness-blocked-setup":
+                ctx.notes.append(what)
+            else:
+                ctx.fail(key, what, case=case, observed=what)
 
 
 def replay_case(ctx, case):
@@ -442,7 +590,7 @@ def sanitize_cases(ctx, n):
         def o(v):
             return "None" if v is None else "(Some %s)" % coq(v)
         cases.append(("(%s, %s, %s, %s)" % (coq(dw), coq(dp), o(w), o(p)), got, (dw, dp, w, p)))
-    bad = ctx.model_mismatches("run_sanitize", "(Z * Z * option Z * option Z)", [(c, e) for c, e, _ in cases])
+    bad = safe_mismatches(ctx, "run_sanitize", "(Z * Z * option Z * option Z)", [(c, e) for c, e, _ in cases])
     for i in bad[:3]:
         ctx.disagree("_sanitize_* differs from the generated definition", case=list(cases[i][2]), impl=cases[i][1])
 
@@ -595,12 +743,21 @@ def run(ctx):
     ctx.prove()
     scale = 6 if ctx.thorough else 1
     sanitize_cases(ctx, 100 * scale)
-    histories(ctx, 160 * scale, codes=[None, None, 1], label="history")
+    directed_oracle(ctx)
+    histories(ctx, 160 * scale, codes=[None, None, None, 1, 1, 0, 3], label="history")
+    blocked_runs(ctx)
     live_runs(ctx, 3 * (3 if ctx.thorough else 1))
 
 
 def replay(ctx, rep):
     case = rep["case"]
+    if case.get("blocked"):
+        probs, _ = blocked_senders(ctx, case["threads"], case["adjust"])
+        ctx.count(("replay-blocked",))
+        ctx.count(("replay-blocked2",))
+        for key, what in probs[:1]:
+            ctx.fail(key, what, case=case, observed=what)
+        return
     if case.get("live"):
         probs, _ = live_transfer(ctx, case["W"], case["P"], [tuple(s) for s in case["sizes"]])
         ctx.count(("replay-live",))
